@@ -112,7 +112,30 @@ func init() {
 						if !ok || len(as.Lhs) != 1 || len(as.Rhs) != 1 || !isFieldOf(ginfo, as.Lhs[0], jobsFld) {
 							return true
 						}
-						if c, ok := ast.Unparen(as.Rhs[0]).(*ast.CallExpr); ok && isBuiltin(ginfo, c, "append") && len(c.Args) == 2 && c.Ellipsis.IsValid() && identObj(ginfo, c.Args[1]) == param && isFieldOf(ginfo, c.Args[0], jobsFld) {
+						isParam := func(e ast.Expr) bool {
+							o := identObj(ginfo, e)
+							if o == param {
+								return true
+							}
+							// a local defined once as the parameter itself (names := filenames)
+							if o == nil {
+								return false
+							}
+							nDef, same := 0, false
+							ast.Inspect(f.Body(), func(z ast.Node) bool {
+								if a2, ok := z.(*ast.AssignStmt); ok && len(a2.Lhs) == len(a2.Rhs) {
+									for i, l := range a2.Lhs {
+										if identObj(ginfo, l) == o {
+											nDef++
+											same = identObj(ginfo, a2.Rhs[i]) == param
+										}
+									}
+								}
+								return true
+							})
+							return nDef == 1 && same
+						}
+						if c, ok := ast.Unparen(as.Rhs[0]).(*ast.CallExpr); ok && isBuiltin(ginfo, c, "append") && len(c.Args) == 2 && c.Ellipsis.IsValid() && isParam(c.Args[1]) && isFieldOf(ginfo, c.Args[0], jobsFld) {
 							appended, host = true, g
 						}
 						return true
